@@ -13,6 +13,7 @@ import (
 	"fmt"
 	"go/ast"
 	"go/format"
+	"go/parser"
 	"go/token"
 	"go/types"
 	"os"
@@ -43,6 +44,20 @@ var vtimePkgs = map[string]bool{
 	"github.com/jirenius/go-res/resprot": true,
 }
 
+// oldLoopSemantics reports whether a module with this go directive has per-loop (shared) loop variables.
+func oldLoopSemantics(v string) bool {
+	if v == "" {
+		return true
+	}
+	parts := strings.Split(v, ".")
+	if len(parts) < 2 {
+		return false
+	}
+	maj, _ := strconv.Atoi(parts[0])
+	min, _ := strconv.Atoi(parts[1])
+	return maj == 1 && min < 22
+}
+
 func fatal(format string, a ...any) {
 	fmt.Fprintf(os.Stderr, "MACHINERY vrewrite: "+format+"\n", a...)
 	os.Exit(2)
@@ -58,6 +73,8 @@ type rewriter struct {
 	fname   string
 	tmp     int
 	handled map[ast.Node]bool
+	pkg           *types.Package
+	sharedLoopVar bool // module declares go < 1.22: one loop variable per loop, not per iteration
 }
 
 func main() {
@@ -69,7 +86,7 @@ func main() {
 	}
 	cfg := &packages.Config{
 		Mode: packages.NeedName | packages.NeedFiles | packages.NeedCompiledGoFiles | packages.NeedSyntax |
-			packages.NeedTypes | packages.NeedTypesInfo | packages.NeedImports | packages.NeedDeps,
+			packages.NeedTypes | packages.NeedTypesInfo | packages.NeedImports | packages.NeedDeps | packages.NeedModule,
 		Dir: *dir,
 		Env: os.Environ(),
 	}
@@ -89,7 +106,10 @@ func main() {
 			if strings.HasSuffix(fname, "_test.go") {
 				continue
 			}
-			rw := &rewriter{fset: p.Fset, info: p.TypesInfo, pkgPath: p.PkgPath, file: f, fname: fname}
+			rw := &rewriter{fset: p.Fset, info: p.TypesInfo, pkgPath: p.PkgPath, file: f, fname: fname, pkg: p.Types}
+			if p.Module != nil {
+				rw.sharedLoopVar = oldLoopSemantics(p.Module.GoVersion)
+			}
 			rw.run()
 			if !rw.changed {
 				continue
@@ -404,6 +424,26 @@ func (rw *rewriter) goStmt(g *ast.GoStmt) ast.Stmt {
 	return blk
 }
 
+// qualifier names packages the way this file imports them.
+func (rw *rewriter) qualifier() types.Qualifier {
+	names := map[string]string{}
+	for _, imp := range rw.file.Imports {
+		path, _ := strconv.Unquote(imp.Path.Value)
+		if imp.Name != nil {
+			names[path] = imp.Name.Name
+		}
+	}
+	return func(p *types.Package) string {
+		if p == rw.pkg {
+			return ""
+		}
+		if n, ok := names[p.Path()]; ok {
+			return n
+		}
+		return p.Name()
+	}
+}
+
 func (rw *rewriter) rangeChan(r *ast.RangeStmt) ast.Stmt {
 	if !rw.pure(r.X) {
 		fatal("unsupported construct: range over impure channel expression at %s", rw.pos(r))
@@ -417,14 +457,27 @@ func (rw *rewriter) rangeChan(r *ast.RangeStmt) ast.Stmt {
 	if r.Key != nil {
 		key = r.Key
 	}
-	if r.Tok == token.ASSIGN {
+	var outer ast.Stmt
+	if r.Tok == token.ASSIGN || (rw.sharedLoopVar && r.Key != nil) {
 		pre = append(pre, &ast.DeclStmt{Decl: &ast.GenDecl{Tok: token.VAR, Specs: []ast.Spec{&ast.ValueSpec{Names: []*ast.Ident{ast.NewIdent(ok)}, Type: ast.NewIdent("bool")}}}})
 		pre = append(pre, &ast.AssignStmt{Lhs: []ast.Expr{key, ast.NewIdent(ok)}, Tok: token.ASSIGN, Rhs: []ast.Expr{recv}})
+		if r.Tok == token.DEFINE {
+			// go < 1.22: the loop variable is declared once for the whole loop
+			ch := rw.info.Types[r.X].Type.Underlying().(*types.Chan)
+			texpr, err := parser.ParseExpr(types.TypeString(ch.Elem(), rw.qualifier()))
+			if err != nil {
+				fatal("cannot express the element type of the channel ranged over at %s: %v", rw.pos(r), err)
+			}
+			outer = &ast.DeclStmt{Decl: &ast.GenDecl{Tok: token.VAR, Specs: []ast.Spec{&ast.ValueSpec{Names: []*ast.Ident{r.Key.(*ast.Ident)}, Type: texpr}}}}
+		}
 	} else {
 		pre = append(pre, &ast.AssignStmt{Lhs: []ast.Expr{key, ast.NewIdent(ok)}, Tok: token.DEFINE, Rhs: []ast.Expr{recv}})
 	}
 	pre = append(pre, &ast.IfStmt{Cond: &ast.UnaryExpr{Op: token.NOT, X: ast.NewIdent(ok)}, Body: &ast.BlockStmt{List: []ast.Stmt{&ast.BranchStmt{Tok: token.BREAK}}}})
 	body := &ast.BlockStmt{List: append(pre, r.Body)}
+	if outer != nil {
+		return &ast.BlockStmt{List: []ast.Stmt{outer, &ast.ForStmt{Body: body}}}
+	}
 	return &ast.ForStmt{Body: body}
 }
 
@@ -491,7 +544,11 @@ func patchNats(cfg *packages.Config, odir string, overlay map[string]string) {
 		if strings.Count(s, h.sig) != 1 {
 			fatal("nats.go: anchor %q not found exactly once", h.sig)
 		}
-		s = strings.Replace(s, h.sig, h.sig+"\n\tif h := verifSubHook(s); h != nil {\n\t\treturn h(\""+h.op+"\")\n\t}", 1)
+		arg := "\"" + h.op + "\""
+		if h.op == "autounsubscribe" {
+			arg = "\"autounsubscribe:\" + strconv.Itoa(max)"
+		}
+		s = strings.Replace(s, h.sig, h.sig+"\n\tif h := verifSubHook(s); h != nil {\n\t\treturn h("+arg+")\n\t}", 1)
 	}
 	dst := filepath.Join(odir, "github.com/nats-io/nats.go", "nats.go")
 	os.MkdirAll(filepath.Dir(dst), 0o755)
